@@ -122,7 +122,11 @@ def _cases(draw, tier):
                     if not 0 <= v < (1 << (8 * w)):
                         feats.add('out-of-range-value')
                 vals.append(e)
-            if draw(st.integers(0, 7)) == 0:
+            if draw(st.integers(0, 11)) == 0 and len(vals) >= 2:
+                # two quoted characters side by side, the first of them the apostrophe
+                vals[0] = ['num', 39, 'chr']
+                vals[1] = ['num', ord(draw(st.sampled_from('s,;\'a'))), 'chr']
+            elif draw(st.integers(0, 7)) == 0:
                 # a list that begins with a character literal is still a list of expressions
                 lit = ['num', ord(draw(st.sampled_from('aZq09 #~;,\\\'"'))), 'chr']
                 vals[0] = draw(st.sampled_from([lit, ['bin', '+', lit, ['num', draw(st.integers(0, 9)), 'dec']],
@@ -145,7 +149,7 @@ def _cases(draw, tier):
                 feats.add('list-starts-with-character-literal')
             if w > 1 and general['endian'] == 'little':
                 feats.add('little-endian-multibyte')
-            items.append({'t': 'data', 'd': d, 'vals': vals})
+            items.append({'t': 'data', 'd': d, 'vals': vals, 'sep': draw(st.sampled_from([', ', ', ', ',', ' ,', ',  ', ' , ']))})
             cursor += w * len(vals)
         elif kind in ('str', 'bare'):
             chars, q = draw(_string(semi))
